@@ -708,10 +708,17 @@ op_dupinto(const char *id, const struct reg *rg, const char *ttok, int idx, unsi
     i = 0;
     LY_LIST_FOR(P ? lyd_first_sibling(P) : NULL, it) { if (i++ == pidx) par = it; }
     if (idx < 0 || idx >= n || !par) { vp_reply(id, "err BadIndex"); goto done; }
-    if (!arr[idx]->parent || lyd_parent(arr[idx])->parent || !par->schema || !(par->schema->nodetype & LYD_NODE_INNER) ||
-            strcmp(lyd_parent(arr[idx])->schema->name, par->schema->name) || (o & LYD_DUP_WITH_PARENTS)) {
-        vp_reply(id, "err BadParent");
-        goto done;
+    {
+        /* the node must sit below a top-level node of the parent's schema: directly (any options), or deeper — then only with
+         * LYD_DUP_WITH_PARENTS, which copies the parents in between and connects the chain to the given parent */
+        const struct lyd_node *top = arr[idx];
+        int depth = 0;
+        while (top->parent) { top = lyd_parent(top); depth++; }
+        if (!depth || !par->schema || !(par->schema->nodetype & LYD_NODE_INNER) || strcmp(top->schema->name, par->schema->name) ||
+                (depth > 1 && !(o & LYD_DUP_WITH_PARENTS))) {
+            vp_reply(id, "err BadParent");
+            goto done;
+        }
     }
     r = do_dup_into(arr[idx], sd->ctx, par, o, mode, &d);
     if (r) {
